@@ -20,6 +20,7 @@ fn main() {
             if debug {
                 eprintln!("panic at {loc}: {info}");
             }
+            engine::PANIC_LOG.lock().unwrap().push((std::time::Instant::now(), loc.clone()));
             engine::THREAD_PANIC_LOCATION.with(|l| *l.borrow_mut() = Some(loc.clone()));
             *engine::LAST_PANIC_LOCATION.lock().unwrap() = Some(loc);
         }));
